@@ -33,6 +33,13 @@ import (
 	"golang.org/x/tools/go/ssa"
 )
 
+// contract keywords introduced here (registered from this file so that contract.go stays untouched)
+func init() {
+	for _, k := range []string{"nostrlen", "opaque_strings", "merge_branches"} {
+		clauseKeywords[k] = true
+	}
+}
+
 // ---------------------------------------------------------------------------
 // 1. map range ghosts
 
